@@ -284,7 +284,7 @@ mem: 12
 native: self
 funcs: spifconf_shell_expand
 */
-/*@unit
+/*@disabled-unit (lead: the 5-character instance exhausts 12 GB under 14 parallel jobs and ends UNDECIDED; the <= 3 / <= 4 character instances stay)
 name: reads_percent_ok_5
 define: U_READS, VB_NOGROW, A_SPACE, A_PCT, A_PAREN, D_FLAGS=0u, NMAX=5, BUFF=32, VERIF_EXACT_LIBC, VERIF_OWN_STRLEN, VERIF_OWN_STRCMP, VERIF_OWN_STRDUP, VERIF_OWN_STRCHR
 src: conf.c
@@ -316,7 +316,7 @@ mem: 12
 native: self
 funcs: spifconf_shell_expand
 */
-/*@unit
+/*@disabled-unit (lead: the 5-character instance exhausts 12 GB under 14 parallel jobs and ends UNDECIDED; the <= 3 / <= 4 character instances stay)
 name: reads_percent_lone_5
 define: U_READS, VB_NOGROW, A_SPACE, A_PCT, A_PAREN, D_FLAGS=RF_LONEPCT, D_NEED=RF_LONEPCT, NMAX=5, BUFF=32, VERIF_EXACT_LIBC, VERIF_OWN_STRLEN, VERIF_OWN_STRCMP, VERIF_OWN_STRDUP, VERIF_OWN_STRCHR
 src: conf.c
@@ -348,7 +348,7 @@ mem: 12
 native: self
 funcs: spifconf_shell_expand
 */
-/*@unit
+/*@disabled-unit (lead: the 5-character instance exhausts 12 GB under 14 parallel jobs and ends UNDECIDED; the <= 3 / <= 4 character instances stay)
 name: reads_percent_open_5
 define: U_READS, VB_NOGROW, A_SPACE, A_PCT, A_PAREN, D_FLAGS=RF_MISMATCH, D_NEED=RF_MISMATCH, NMAX=5, BUFF=32, VERIF_EXACT_LIBC, VERIF_OWN_STRLEN, VERIF_OWN_STRCMP, VERIF_OWN_STRDUP, VERIF_OWN_STRCHR
 src: conf.c
